@@ -19,6 +19,14 @@ pub struct Faults {
     pub fail_recv_at: Option<usize>,
     /// hard cap on requests per operation (turns an endless retry loop into an I/O error)
     pub max_requests_per_op: usize,
+    /// successive `write` calls accept at most this many bytes each (then everything)
+    pub write_chunks: VecDeque<usize>,
+    /// successive `read` calls return at most this many bytes each (then everything asked for)
+    pub read_chunks: VecDeque<usize>,
+    /// the n-th reply from now: its first read times out, the reply stays in the stream (arrives "late")
+    pub timeout_recv_at: Option<usize>,
+    /// the n-th read call from now (counted over all reads) hits end-of-stream
+    pub eof_read_at: Option<usize>,
 }
 
 pub struct World {
@@ -30,6 +38,9 @@ pub struct World {
     /// raw frames received per host during the current op
     pub frames: Vec<(String, Vec<u8>)>,
     pub aborted_ops: usize,
+    pub reads: usize,
+    /// (host, bytes of an incomplete frame accepted by the stream) noted when a connection is left with a partial frame
+    pub partial: Vec<(String, usize)>,
     /// reply payloads served instead of asking the Lean broker (table extraction, hostile replies)
     pub canned: VecDeque<Vec<u8>>,
 }
@@ -91,9 +102,24 @@ impl Write for MemStream {
                 return Err(io::Error::new(io::ErrorKind::BrokenPipe, "injected send failure"));
             }
         }
-        self.wbuf.extend_from_slice(buf);
+        let accept = {
+            let mut w = self.world.borrow_mut();
+            match w.faults.write_chunks.pop_front() {
+                Some(k) => k.max(1).min(buf.len()),
+                None => buf.len(),
+            }
+        };
+        self.wbuf.extend_from_slice(&buf[..accept]);
         self.pump()?;
-        Ok(buf.len())
+        {
+            let mut w = self.world.borrow_mut();
+            // remember how much of an incomplete frame sits in this stream
+            w.partial.retain(|(h, _)| h != &self.host);
+            if !self.wbuf.is_empty() {
+                w.partial.push((self.host.clone(), self.wbuf.len()));
+            }
+        }
+        Ok(accept)
     }
     fn flush(&mut self) -> io::Result<()> {
         Ok(())
@@ -112,7 +138,18 @@ impl Read for MemStream {
             w.lean.log(&line);
             return Err(io::Error::new(io::ErrorKind::TimedOut, "no reply"));
         }
-        let n = buf.len().min(self.rbuf.len());
+        let limit = {
+            let mut w = self.world.borrow_mut();
+            let idx = w.reads;
+            w.reads += 1;
+            if w.faults.eof_read_at == Some(idx) {
+                let line = format!("IO {} recv-fail", hex(self.host.as_bytes()));
+                w.lean.log(&line);
+                return Ok(0);
+            }
+            w.faults.read_chunks.pop_front().unwrap_or(usize::MAX).max(1)
+        };
+        let n = buf.len().min(self.rbuf.len()).min(limit);
         for b in buf.iter_mut().take(n) {
             *b = self.rbuf.pop_front().unwrap();
         }
@@ -143,6 +180,12 @@ impl Read for FaultyRecv {
             let mut w = self.inner.world.borrow_mut();
             let idx = w.recvs;
             w.recvs += 1;
+            if w.faults.timeout_recv_at == Some(idx) {
+                let line = format!("IO {} recv-fail", hex(self.inner.host.as_bytes()));
+                w.lean.log(&line);
+                // the reply is NOT lost: it stays queued and "arrives late"
+                return Err(io::Error::new(io::ErrorKind::TimedOut, "injected read time-out"));
+            }
             if w.faults.fail_recv_at == Some(idx) {
                 let line = format!("IO {} recv-fail", hex(self.inner.host.as_bytes()));
                 w.lean.log(&line);
@@ -185,6 +228,8 @@ pub fn new_world() -> Shared {
         reqs_this_op: 0,
         frames: Vec::new(),
         aborted_ops: 0,
+        reads: 0,
+        partial: Vec::new(),
         canned: VecDeque::new(),
     }));
     install(&w);
